@@ -336,7 +336,14 @@ def step (st : St) (ws : List String) : St × String :=
             | some p => (some (p.1, some p.2), some (match Spec.infoAt sp p.1 (some p.2) with | none => "?" | some x => fmtInfo x))
         ({ st with iters := st.iters.setIfInBounds t (some { its with it := it', pos := pos' }) }, withDiff a b)
     | _, _ => (st, "bad-op")
-  | ["finfo", k, ml, _, _, hx] =>
+  -- abandoned file-info decoding: only the state of the harness' handle changes
+  | ["finfoa", k, _, _, _, _] =>
+    match slotIdx k with
+    | some k => (st.drop k, "ok")
+    | none => (st, "bad-op")
+  | [op, k, ml, _, _, hx] =>
+    -- finfo / finfof / finfog: the answer does not depend on the action protocol or the read sizes
+    if op != "finfo" && op != "finfof" && op != "finfog" then (st, "bad-op") else
     match slotIdx k, ml.toNat?, bytesOfHex hx with
     | some k, some ml, some bs =>
       let (r, idx) := fileInfo ml bs.toArray
